@@ -8,7 +8,14 @@ property's own predicate on the implementation's output, by brute force over tru
   * no decision node of the result tests a quantified variable (support disjoint from the set),
   * the result is canonical (`isCanon`),
   * two orderings (with duplicates) of the same variable set give the identical array,
-  * deprecated aliases (`project`, `var_project`) give the identical array.
+  * deprecated aliases (`project`, `var_project`) give the identical array, and so do `exists([x])` /
+    `var_exists(x)` and `for_all([x])` / `var_for_all(x)`,
+  * the variables tested by the result are exactly the variables the projected function depends on,
+  * passing the very same object twice (`alias`) or a clone (`clone`) makes no difference.
+Diagrams over more than `maxTT` variables with a small support (the wide stream) are checked by brute force
+over the valuations of the union of the supports of operands and result, under several fixed background
+patterns for all other variables; only when that union exceeds `maxTT` variables (the big-operand stream) is
+the projection clause sampled.
 -/
 namespace B.Drive.C03
 open B B.Drive
@@ -31,15 +38,18 @@ def oracle (n : Nat) (L R : Arr) (c : Bool → Bool → Bool) (d : Bool → Bool
 
 def firstFail (xs : List (Option String)) : Option String := xs.findSome? id
 
-/-- pseudo-random valuations for diagrams too wide for a full truth table (SplitMix-style mixing of the
-    index); the projection clause is then checked on `samples` valuations instead of all 2^n -/
-def sampleVal (n k : Nat) : Nat → Bool := fun j =>
-  let z := (k + 1) * 0x9E3779B97F4A7C15 % 2 ^ 64
-  let z := (z ^^^ (z >>> 29)) * 0xBF58476D1CE4E5B9 % 2 ^ 64
-  let z := (z ^^^ (z >>> 32))
-  j < n && (z >>> (j % 60)) % 2 == 1
+/-- SplitMix-style mixing of a sample index into 64 pseudo-random bits -/
+def mix (k : Nat) : UInt64 :=
+  let z : UInt64 := (k + 1).toUInt64 * 0x9E3779B97F4A7C15
+  let z := (z ^^^ (z >>> 29)) * 0xBF58476D1CE4E5B9
+  z ^^^ (z >>> 32)
 
-def samples : Nat := 16384
+/-- pseudo-random valuation for diagrams with a support too large for a full truth table: the bits `z` are
+    computed once per sample (`mix`), the projection clause is then checked on `samples` valuations -/
+def sampleVal (n : Nat) (z : UInt64) : Nat → Bool := fun j =>
+  j < n && ((z >>> (j % 60).toUInt64) &&& 1) == 1
+
+def samples : Nat := 32768
 
 /-- at most this many quantified variables are re-assigned exhaustively in the sampled oracle -/
 def maxQuant : Nat := 8
@@ -62,17 +72,62 @@ def checkSampled (n : Nat) (res L R : Arr) (c d : Bool → Bool → Bool) (q : N
   let qs := (List.range n).filter q
   if qs.length > maxQuant then none else
   if (List.range samples).all fun k =>
-      let v := sampleVal n k
+      let v := sampleVal n (mix k)
       evalArr res v == oracleAt L R c d qs v then none else some "projection(sampled)"
 
-/-- the predicate on one observed result; `want` is the full oracle table (n ≤ maxTT) -/
-def checkRes (n : Nat) (res L R : Arr) (c d : Bool → Bool → Bool) (want : Array Bool) (q : Nat → Bool) : Option String :=
-  firstFail [
-    if n > maxTT then checkSampled n res L R c d q
-    else if (ttOf res n).toList == want.toList then none else some "projection",
+/-- variables tested by decision nodes, increasing, without repetition (variables ≥ `numVars` ignored) -/
+def supportOf (A : Arr) : List Nat :=
+  let n := numVars A
+  let marks := (A.toList.drop 2).foldl
+    (fun (m : Array Bool) nd => if nd.var < n then m.set! nd.var true else m) (Array.replicate n false)
+  (List.range n).filter fun i => marks[i]!
+
+def mergeSorted : List Nat → List Nat → List Nat
+  | [], ys => ys
+  | xs, [] => xs
+  | x :: xs, y :: ys =>
+    if x < y then x :: mergeSorted xs (y :: ys)
+    else if y < x then y :: mergeSorted (x :: xs) ys
+    else x :: mergeSorted xs ys
+termination_by xs ys => xs.length + ys.length
+
+/-- valuation number `i` of the variables `U` (first variable most significant), `bg` elsewhere -/
+def valOn (U : List Nat) (i : Nat) (bg : Nat → Bool) : Nat → Bool := fun j =>
+  match U.idxOf? j with
+  | some k => (i >>> (U.length - 1 - k)) % 2 == 1
+  | none => bg j
+
+/-- fixed background patterns for the variables outside the compressed support -/
+def backgrounds : List (Nat → Bool) :=
+  [fun _ => false, fun _ => true, fun j => j % 2 == 1, fun j => (j / 64) % 2 == 0, fun j => j % 64 < 32]
+
+/-- variables (positions in a table over `m` variables) the table depends on -/
+def depsOf (m : Nat) (t : Array Bool) : List Nat :=
+  (List.range m).filter fun k =>
+    let bit := 2 ^ (m - 1 - k)
+    (List.range (2 ^ m)).any fun i => t.getD i false != t.getD (i ^^^ bit) false
+
+/-- brute force over the union `U` of the supports: projection under every background, and exactness of
+    the result's support -/
+def checkCompressed (U : List Nat) (res L R : Arr) (c d : Bool → Bool → Bool) (q : Nat → Bool) : List (Option String) :=
+  let m := U.length
+  let table := fun (A : Arr) (bg : Nat → Bool) => (Array.range (2 ^ m)).map fun i => evalArr A (valOn U i bg)
+  let want := fun (bg : Nat → Bool) =>
+    let tl := table L bg; let tr := table R bg
+    let o : Array Bool := (Array.range (2 ^ m)).map fun i => c (tl.getD i false) (tr.getD i false)
+    (List.range m).foldl (fun t k => if q (U.getD k 0) then projVar m d t k else t) o
+  let bg0 : Nat → Bool := fun _ => false
+  [ if backgrounds.all (fun bg => (table res bg).toList == (want bg).toList) then none else some "projection",
+    if (depsOf m (want bg0)).map (fun k => U.getD k 0) == supportOf res then none else some "support-not-exact" ]
+
+/-- the predicate on one observed result -/
+def checkRes (n : Nat) (res L R : Arr) (c d : Bool → Bool → Bool) (q : Nat → Bool) : Option String :=
+  let U := if n ≤ maxTT then List.range n else mergeSorted (supportOf res) (mergeSorted (supportOf L) (supportOf R))
+  firstFail (
+    (if U.length ≤ maxTT then checkCompressed U res L R c d q else [checkSampled n res L R c d q]) ++ [
     if (res.toList.drop 2).all (fun nd => !(q nd.var)) then none else some "support-not-disjoint",
     if numVars res == n then none else some "num-vars",
-    if isCanon res then none else some "not-canonical"]
+    if isCanon res then none else some "not-canonical"])
 
 def parseVars? (s : String) : Option (List Nat) :=
   if s == "~" then some [] else (s.splitOn ",").mapM (·.toNat?)
@@ -86,7 +141,9 @@ def qTag (n : Nat) (q : Nat → Bool) : String :=
   if n > 0 && k == n then "q-all" else if k == 0 then "q-none" else if k == 1 then "q-one" else "q-some"
 
 def tagsOf (kind : String) (n : Nat) (ops : List Arr) (q : Nat → Bool) : List String :=
-  [kind, s!"n{n}", qTag n q, if ops.any (·.size > 65536) then "big>65536" else "small",
+  [kind, if n ≤ 20 then s!"n{n}" else if n ≤ 64 then "n21-64" else if n ≤ 128 then "n65-128" else if n ≤ 300 then "n129-300"
+     else if n ≤ 2000 then "n301-2000" else "n>2000",
+   qTag n q, if ops.any (·.size > 65536) then "big>65536" else "small",
    if ops.any (·.size ≤ 2) then "const-operand" else "nonconst",
    if ops.all isCanon then "canon-operands" else "noncanon-operand"]
 
@@ -104,22 +161,32 @@ def showO : Option Arr → String
   | some A => showArr A
   | none => "panic"
 
-/-- common part of all kinds: `results` are the observed fields that must all be the projection -/
+/-- one group of observed fields that must all be the projection `Q_q^d (c L R)`: `models` are the model's
+    outputs (`none` = the model says the call panics), `obs` the observed fields.
+    Returns the model text, the failed clause (if any) and the first parsed result. -/
+def checkGroup (n : Nat) (L R : Arr) (c d : Bool → Bool → Bool) (q : Nat → Bool)
+    (models : List (Option Arr)) (obs : List String) : String × Option String × Option Arr :=
+  let modelS := " ".intercalate (models.map showO)
+  let parsed := obs.map parseArr?
+  let perField := (models.zip (parsed.zip obs)).map fun (m, p, o) =>
+    match m, p with
+    | none, _ => if o == "panic" then none else some "outcome:expected-panic"
+    | some _, some A => checkRes n A L R c d q
+    | some _, none => some ("outcome:" ++ o)
+  let live := (models.zip obs).filterMap fun (m, o) => if m.isSome then some o else none
+  let fail := firstFail (perField ++
+    [if models.length == obs.length then none else some "outcome:field-count",
+     if live.all (· == live.headD "") then none else some "order-or-alias-dependent"])
+  (modelS, fail, parsed.headD none)
+
+/-- common part of the single-group kinds -/
 def verdict (kind : String) (n : Nat) (L R : Arr) (c d : Bool → Bool → Bool) (q : Nat → Bool)
     (models : List (Option Arr)) (obs : List String) : Verdict :=
-  let modelS := " ".intercalate (models.map showO)
-  let obsS := " ".intercalate obs
-  let expectPanic := models.all (·.isNone)
-  let want := if n > maxTT then #[] else oracle n L R c d q
-  let parsed := obs.map parseArr?
-  let fail :=
-    if expectPanic then (if obs.all (· == "panic") then none else some "outcome:expected-panic")
-    else firstFail ((parsed.zip obs).map (fun (p, o) => match p with
-        | some A => checkRes n A L R c d want q
-        | none => some ("outcome:" ++ o))
-      ++ [if obs.all (· == obs.headD "") then none else some "order-or-alias-dependent"])
-  { agree := modelS == obsS, model := modelS, fail,
-    nontrivial := nontriv (parsed.headD none) [L, R] q, tags := tagsOf kind n [L, R] q }
+  let (modelS, fail, first) := checkGroup n L R c d q models obs
+  { agree := modelS == " ".intercalate obs, model := modelS, fail,
+    nontrivial := nontriv first [L, R] q, tags := tagsOf kind n [L, R] q }
+
+def formOk (form l r : String) : Bool := form == "sep" || ((form == "alias" || form == "clone") && l == r)
 
 def handle (key : String) (ins obs : List String) : Verdict :=
   match key, ins with
@@ -134,6 +201,27 @@ def handle (key : String) (ins obs : List String) : Verdict :=
       let v := verdict "nested" n L R (conn2 c) (conn2 ic) trig [nestedApplyO L R trig op iop] obs
       { v with tags := (if ic == 14 then "inner-or" else "inner-and") ::
           (if inner == "or" || inner == "and" then "inner-builtin" else "inner-table") :: v.tags }
+    | _, _, _, _, _, _ => Verdict.bad "args"
+  | "C03.chain", [n, table, conn, a, b, vs, form] =>
+    match n.toNat?, conn.toNat?, parseArr? a, parseArr? b, parseVars? vs, obs with
+    | some n, some c, some A, some B, some vs, [o1, o2, o3] =>
+      let op := op2OfTable table
+      if !consistent2 op c then Verdict.bad "inconsistent outer table (harness bug)" else
+      if !(form == "alias" || form == "clone") then Verdict.bad "form (harness bug)" else
+      let trig := trigOfList vs
+      let m1 := nestedApplyO A B trig op Gen.or_
+      let m2 := m1.bind fun r => nestedApplyO r A trig op Gen.and_
+      let m3 := m1.bind fun r => nestedApplyO r r trig op Gen.or_
+      let (s1, f1, first) := checkGroup n A B (conn2 c) (· || ·) trig [m1] [o1]
+      -- the later steps are judged relative to the OBSERVED intermediate result
+      let (f2, f3) := match first with
+        | some r => ((checkGroup n r A (conn2 c) (· && ·) trig [m2] [o2]).2.1,
+                     (checkGroup n r r (conn2 c) (· || ·) trig [m3] [o3]).2.1)
+        | none => (none, none)
+      let modelS := s!"{s1} {showO m2} {showO m3}"
+      { agree := modelS == " ".intercalate obs, model := modelS,
+        fail := firstFail [f1, f2.map ("step2:" ++ ·), f3.map ("step3:" ++ ·)],
+        nontrivial := nontriv first [A, B] trig, tags := form :: s!"conn{c}" :: tagsOf "chain" n [A, B] trig }
     | _, _, _, _, _, _ => Verdict.bad "args"
   | k, [n, table, conn, l, r, vs1, vs2] =>
     if k != "C03.exq" && k != "C03.allq" then Verdict.bad ("key " ++ key) else
@@ -165,14 +253,43 @@ def handle (key : String) (ins obs : List String) : Verdict :=
     match parseArr? l, x.toNat? with
     | some L, some x =>
       let m := varExistsO L x
-      verdict "varex" (numVars L) L L (· && ·) (· || ·) (· == x) [m, m] obs
+      -- optional third observation: `exists([x])` (never panics; equals `var_exists(x)` when `x` is a variable)
+      let models := if obs.length == 3 then [m, m, some (bddExists L [x])] else [m, m]
+      verdict "varex" (numVars L) L L (· && ·) (· || ·) (· == x) models obs
     | _, _ => Verdict.bad "args"
   | "C03.varall", [l, x] =>
     match parseArr? l, x.toNat? with
     | some L, some x =>
       let m := varForAllO L x
-      verdict "varall" (numVars L) L L (· && ·) (· && ·) (· == x) [m] obs
+      let models := if obs.length == 2 then [m, some (bddForAll L [x])] else [m]
+      verdict "varall" (numVars L) L L (· && ·) (· && ·) (· == x) models obs
     | _, _ => Verdict.bad "args"
+  | "C03.nestl", [n, table, conn, l, r, vs, inner, iconn, form] =>
+    match n.toNat?, conn.toNat?, parseArr? l, parseArr? r, parseVars? vs, iconn.toNat? with
+    | some n, some c, some L, some R, some vs, some ic =>
+      let op := op2OfTable table
+      let iop := innerOf inner
+      if !consistent2 op c then Verdict.bad "inconsistent outer table (harness bug)" else
+      if !(consistent2 iop ic && (ic == 14 || ic == 8)) then Verdict.bad "inner table is not or/and (harness bug)" else
+      if !formOk form l r then Verdict.bad "form does not fit the operands (harness bug)" else
+      let trig := trigOfList vs
+      let v := verdict "nestl" n L R (conn2 c) (conn2 ic) trig [nestedApplyO L R trig op iop] obs
+      { v with tags := form :: (if ic == 14 then "inner-or" else "inner-and") :: s!"conn{c}" :: v.tags }
+    | _, _, _, _, _, _ => Verdict.bad "args"
+  | k, [n, table, conn, l, r, vs1, vs2, form] =>
+    if k != "C03.exqf" && k != "C03.allqf" then Verdict.bad ("key " ++ key) else
+    match n.toNat?, conn.toNat?, parseArr? l, parseArr? r, parseVars? vs1, parseVars? vs2 with
+    | some n, some c, some L, some R, some v1, some v2 =>
+      let op := op2OfTable table
+      if !consistent2 op c then Verdict.bad "inconsistent outer table (harness bug)" else
+      if !sameSet v1 v2 then Verdict.bad "lists are not the same set (harness bug)" else
+      if !formOk form l r then Verdict.bad "form does not fit the operands (harness bug)" else
+      let ex := k == "C03.exqf"
+      let f := fun vs => nestedApplyO L R (trigOfList vs) op (if ex then Gen.or_ else Gen.and_)
+      let v := verdict (if ex then "exqf" else "allqf") n L R (conn2 c) (if ex then (· || ·) else (· && ·))
+        (trigOfList v1) [f v1, f v2] obs
+      { v with tags := form :: s!"conn{c}" :: v.tags }
+    | _, _, _, _, _, _ => Verdict.bad "args"
   | _, _ => Verdict.bad ("key " ++ key)
 
 end B.Drive.C03
